@@ -330,3 +330,73 @@ Print Assumptions C05_net_stays_forgotten.
 Print Assumptions C05_net_forgotten_peer_refuted.
 Print Assumptions C05_net_invariant_broken_by_fault_refuted.
 Print Assumptions C05_net_clients_are_client_runs.
+
+(* ---- trace level (package R): the oracle the correspondence harness evaluates on the IMPLEMENTATION (Corr_client.c5_run: faults from a Failed
+   report of the sending connection, from an unacknowledged request noticed at a poll, and — from the ops alone — from a connection closed while a
+   wantlist handed to it was never acknowledged; every wantlist sent to a peer with a pending fault must be full and avoid the faulty connection) is a
+   THEOREM about Client.v for every history whose Failed reports name the connection they come from (what the handler does); without that contract it
+   is refuted, and the contract-free corrected fold is proved and shown to agree.  A report that arrives from a connection after it was closed withdraws
+   the fault (witness: the lost full wantlist becomes an ordinary update) — outside the swarm's contract, and the oracle does not alarm there. *)
+From BS Require Import Types Wantlist Wantlist_proofs Client Client_proofs Client_proofs4 Corr_client
+                       Client_proofs20 Client_proofs21 Client_proofs22 Client_proofs23 Client_props4.
+From Coq Require Import ZArith List. Import ListNotations.
+Open Scope N_scope.
+
+Theorem C05_trace_fold_is_the_harness_oracle :
+  forall (sdh : bool) (ops : list cop), c5_ok sdh ops = oracle_C05_faults (sdh, ops, model (sdh, ops)).
+Proof. exact (@Client_props4.c5_ok_is_the_oracle). Qed.
+
+Theorem C05_trace_closed_unacked :
+  forall (sdh : bool) (ops : list cop), c5c_ok sdh ops = true.
+Proof. exact (@Client_props4.C05_trace_closed_unacked). Qed.
+
+Theorem C05_trace_closed_unacked_explicit :
+  forall (sdh : bool) (a : list cop) (ch : list (peer * conn)) (b : list cop) (p : peer) 
+    (c : conn) (f : bool) (es : list gen_entry) (d : list cop) (ch' : list (peer * conn)) 
+    (c' : conn) (f' : bool) (es' : list gen_entry),
+  In (OSendWantlist p c f es) (snd (c_poll (st_after sdh a) ch)) ->
+  quiet p c (st_after sdh (a ++ [CPoll ch])) (b ++ [CConnClosed p c] ++ d) ->
+  In (OSendWantlist p c' f' es')
+    (snd (c_poll (st_after sdh ((a ++ [CPoll ch]) ++ b ++ [CConnClosed p c] ++ d)) ch')) ->
+  f' = true /\ c' <> c.
+Proof. exact (@Client_props4.C05_trace_closed_unacked_explicit). Qed.
+
+Theorem C05_trace_late_report_after_close_refuted :
+  let a := [CNewConn 7 1; CNewConn 7 2; CGet (Some ex_c1)] in
+  let b := [CRelease 0 SMiss] in
+  let d := [CReport 7 1 RpReady] in
+  In (OSendWantlist 7 1 true []) (snd (c_poll (st_after true a) [(7, 1)])) /\
+  quiet 7 1 (st_after true (a ++ [CPoll [(7, 1)]])) (b ++ [CConnClosed 7 1]) /\
+  snd (c_poll (st_after true ((a ++ [CPoll [(7, 1)]]) ++ b ++ [CConnClosed 7 1] ++ d)) [(7, 2)]) =
+  [OSendWantlist 7 2 false [(KWantHave, ex_c1)]] /\
+  c5_ok true ((a ++ [CPoll [(7, 1)]]) ++ b ++ [CConnClosed 7 1] ++ d ++ [CPoll [(7, 2)]]) = true.
+Proof. exact (@Client_props4.C05_trace_closed_unacked_refuted). Qed.
+
+Theorem C05_trace_faults :
+  forall (sdh : bool) (ops : list cop), env_ok ops = true -> c5_ok sdh ops = true.
+Proof. exact (@Client_props4.C05_trace_faults). Qed.
+
+Theorem C05_trace_faults_corrected :
+  forall (sdh : bool) (ops : list cop), c5p_ok sdh ops = true.
+Proof. exact (@Client_props4.C05_trace_faults_corrected). Qed.
+
+Theorem C05_trace_corrected_agrees :
+  forall (sdh : bool) (ops : list cop), env_ok ops = true -> c5p_ok sdh ops = c5_ok sdh ops.
+Proof. exact (@Client_props4.c5p_ok_agrees). Qed.
+
+Theorem C05_trace_faults_refuted :
+  exists (sdh : bool) (ops : list cop),
+    env_ok ops = false /\
+    c5_ok sdh ops = false /\
+    c5c_ok sdh ops = true /\
+    c5p_ok sdh ops = true /\ outs_after sdh ops = [OSendWantlist 7 1 true []; OSendWantlist 7 1 true []].
+Proof. exact (@Client_props4.C05_trace_faults_refuted). Qed.
+
+Print Assumptions C05_trace_fold_is_the_harness_oracle.
+Print Assumptions C05_trace_closed_unacked.
+Print Assumptions C05_trace_closed_unacked_explicit.
+Print Assumptions C05_trace_late_report_after_close_refuted.
+Print Assumptions C05_trace_faults.
+Print Assumptions C05_trace_faults_corrected.
+Print Assumptions C05_trace_corrected_agrees.
+Print Assumptions C05_trace_faults_refuted.
